@@ -32,14 +32,14 @@ class Obj:
 
 
 def value(ti, key, gen):
-    return [gen + ":" + key, (gen + ":" + key).encode(), len(key) * 10 + len(gen), {"k": key, "g": gen}, Obj([gen, key]), None][ti]
+    return [gen + ":" + key, (gen + ":" + key).encode(), len(key) * 10 + len(gen), {"k": key, "g": gen}, Obj([gen, key]), None, "", b""][ti]
 
 
-NTYPES = 6        # text, bytes, int, dict, pickled object, None (a value, not "no value")
+NTYPES = 8        # text, bytes, int, dict, pickled object, None (a value, not "no value"), empty text and empty bytes (zero-length payloads)
 ASSUMPTIONS = [
     "key universe %s (shared prefixes, '/', '-', '~' entities, a link); pre-state = each key absent / ready / metadata-only, built "
     "through store()/store_metadata() of the cache under test (untraced); quick: first 4 keys" % KEYS,
-    "operation on any key: store(value of type text/bytes/int/dict/pickled object/None by symbolic index), store_metadata(status "
+    "operation on any key: store(value of type text/bytes/int/dict/pickled object/None/empty text/empty bytes by symbolic index), store_metadata(status "
     "'evaluation' or 'ready'), remove, clean, reads",
     "oracle (from the statement): after a successful store: contains, listed exactly once, get returns an equal value of the same type "
     "with status ready and that query; after remove/clean: get None and not contained/listed; a metadata-only write never makes "
@@ -52,6 +52,8 @@ ASSUMPTIONS = [
     "(sqlite in memory), XORFileCache and FernetFileCache on ShimFS (incl. 'no plain bytes of values or metadata in any file'): their C "
     "libraries (sqlite3, numpy, cryptography) run UNTRACED on the concrete data of each path - the solver decides which pre-state / "
     "operation / key / value type, not the bytes",
+    "StoreCache configurations share their store with a sibling StoreCache whose path ('c2') extends the path of the cache under test "
+    "('c') as a string without being below it; the sibling holds one entry: it must stay readable and unlisted by the cache under test",
     "kernel: StoreCache.to_path (nested) on free symbolic keys |k1|<=2 (thorough 4), |k2|<=|k1|+14; md5-based schemes (flat StoreCache, FileCache) are treated as "
     "injective (hashlib is outside reach)",
 ]
@@ -72,7 +74,20 @@ CONFIGS = ["memory", "proxy(memory)", "filecache", "storecache-flat(memorystore)
 OPS = ["store", "store_metadata_evaluation", "store_metadata_ready", "remove", "clean", "reads"]
 
 
+SIBLING = [None]
+SIB_KEY = "a/b"
+
+
+def _storecache(store, flat):
+    """the cache under test at path 'c', next to a sibling cache at 'c2' on the same store (one entry)"""
+    sib = StoreCache(store, "c2", flat=flat)
+    sib.store(mkstate(SIB_KEY, "sibling"))
+    SIBLING[0] = sib
+    return StoreCache(store, "c", flat=flat)
+
+
 def mkcache(ci):
+    SIBLING[0] = None
     if ci == 0:
         return MemoryCache()
     if ci == 1:
@@ -81,12 +96,12 @@ def mkcache(ci):
         sl.new_fs()
         return FileCache(sl.ROOT + "/fc")
     if ci == 3:
-        return StoreCache(MemoryStore(), "c", flat=True)
+        return _storecache(MemoryStore(), True)
     if ci == 4:
-        return StoreCache(MemoryStore(), "c", flat=False)
+        return _storecache(MemoryStore(), False)
     if ci == 5:
         sl.new_fs()
-        return StoreCache(FileStore(sl.ROOT), "c", flat=False)
+        return _storecache(FileStore(sl.ROOT), False)
     if ci == 6:
         return MemoryCache() + MemoryCache()
     if ci == 7:
@@ -103,7 +118,7 @@ def mkcache(ci):
         return MemoryCache().if_attribute_not_equal("x", "v") + MemoryCache()
     if ci == 13:
         sl.new_fs()
-        return StoreCache(FileStore(sl.ROOT), "c", flat=True)
+        return _storecache(FileStore(sl.ROOT), True)
     if ci == 14:
         return lc.SQLCache.from_sqlite()
     if ci == 15:
@@ -125,7 +140,7 @@ def no_plaintext_on_disk(model):
     for k, m in model.items():
         if m and m[0] == "ready" and isinstance(m[1], (str, bytes)):
             needles.append(m[1].encode() if isinstance(m[1], str) else m[1])
-    return not any(n in b for b in fs.files.values() for n in needles)
+    return not any(n in b for b in fs.files.values() for n in needles if n)        # a zero-length value has no bytes to hide
 
 
 def mkstate(key, val, attr=None):
@@ -243,6 +258,11 @@ def ob_map(pre: int, ki: int, ti: int, attr: int) -> bool:
                 ok = ok and (g is None or (was is not None and was[0] == "ready" and g != "raises" and _same(g.data, was[1])))
         if ci in (16, 17):
             ok = ok and no_plaintext_on_disk(model)
+        if SIBLING[0] is not None:
+            # a cache on a shared store owns only what lies below its own path: the sibling's entry is neither listed nor touched
+            sg = SIBLING[0].get(SIB_KEY)
+            ok = ok and sg is not None and sg.data == "sibling" and listed.count(SIB_KEY) == (1 if SIB_KEY in model else 0)
+            ok = ok and list(SIBLING[0].keys()) == [SIB_KEY]
     return check(ok)
 
 
@@ -286,8 +306,8 @@ def obligations(tier):
             chunk = 27 if op == 0 else total
             for lo in range(0, total, chunk):
                 obs.append(Ob("ob_map", dict(config=ci, op=op, nkeys=n, lo=lo, hi=min(total, lo + chunk)), timeout=200 if q else 1500, per_path=30,
-                              bounds="%s, op=%s; pre-states %d..%d of %d over keys %s x operated key x 5 value types%s" % (
-                                  CONFIGS[ci], OPS[op], lo, min(total, lo + chunk), total, KEYS[:n], " x 3 attribute values" if 9 <= ci <= 12 else "")))
+                              bounds="%s, op=%s; pre-states %d..%d of %d over keys %s x operated key x %d value types%s" % (
+                                  CONFIGS[ci], OPS[op], lo, min(total, lo + chunk), total, KEYS[:n], NTYPES, " x 3 attribute values" if 9 <= ci <= 12 else "")))
     for l1 in ([1, 2] if q else [1, 2, 3, 4]):
         obs.append(Ob("ob_topath", dict(l1=l1, n=l1 + 14), timeout=200 if q else 1500, per_path=60,
                       bounds="nested StoreCache.to_path on free symbolic keys |k1|=%d, 1<=|k2|<=%d (long enough to embed '/0state_.data')" % (l1, l1 + 14)))
